@@ -2,6 +2,8 @@
 use std::io::{BufRead, Write};
 use std::path::Path;
 
+pub mod tomlwire;
+
 /// splitmix64: every random choice of a run derives from `VERIF_SEED` and the case index.
 #[derive(Clone)]
 pub struct Rng(pub u64);
@@ -133,4 +135,40 @@ pub fn main_loop_jobs(
         writeln!(out, "CASE\t{}\t{}\t{}\t#nt={};{}", prop, c.fields.join("\t"), o, u8::from(c.nontrivial), tags.join(";")).unwrap();
     }
     out.flush().unwrap();
+}
+
+/// A buildpack type and a `BuildContext` over a given layers directory, for driving the layer APIs in-process.
+pub mod ctx {
+    use libcnb::build::{BuildContext, BuildResult};
+    use libcnb::detect::{DetectContext, DetectResult};
+    use libcnb::generic::{GenericMetadata, GenericPlatform};
+    use libcnb::{Buildpack, Env, Target};
+    use std::path::Path;
+
+    #[derive(Debug)]
+    pub struct TbError(pub String);
+    impl std::fmt::Display for TbError { fn fmt(&self, f: &mut std::fmt::Formatter<'_>) -> std::fmt::Result { write!(f, "{}", self.0) } }
+    impl std::error::Error for TbError {}
+
+    pub struct TestBuildpack;
+    impl Buildpack for TestBuildpack {
+        type Platform = GenericPlatform;
+        type Metadata = GenericMetadata;
+        type Error = TbError;
+        fn detect(&self, _: DetectContext<Self>) -> libcnb::Result<DetectResult, Self::Error> { unimplemented!() }
+        fn build(&self, _: BuildContext<Self>) -> libcnb::Result<BuildResult, Self::Error> { unimplemented!() }
+    }
+
+    pub fn build_context(layers_dir: &Path, scratch: &Path) -> BuildContext<TestBuildpack> {
+        BuildContext {
+            layers_dir: layers_dir.to_path_buf(),
+            app_dir: scratch.join("app"),
+            buildpack_dir: scratch.join("buildpack"),
+            target: Target { os: "linux".into(), arch: "amd64".into(), arch_variant: None, distro_name: "ubuntu".into(), distro_version: "24.04".into() },
+            platform: GenericPlatform::new(Env::new()),
+            buildpack_plan: libcnb::data::buildpack_plan::BuildpackPlan { entries: vec![] },
+            buildpack_descriptor: toml::from_str("api = \"0.10\"\n[buildpack]\nid = \"verif/test\"\nversion = \"0.0.1\"\n").unwrap(),
+            store: None,
+        }
+    }
 }
